@@ -43,7 +43,8 @@ def u_get_nodes(ctx, index):
 def build():
   units = [
     Unit('hashing.ConsistentHashRing.get_nodes', u_get_nodes, [RM.CHR + '.get_nodes'],
-         expect_covers=['get_nodes/returns'], replay=RU.replay_router),
+         expect_covers=['get_nodes/returns'], replay=RU.replay_router,
+         native_clauses=['C05/get_nodes/distinct', 'C05/get_nodes/member', 'C05/get_nodes/complete', 'C05/get_nodes/length']),
   ] + RU.units()
   return Property(
     'C05', units,
